@@ -14,7 +14,7 @@ import numpy as np
 from acnportal.acnsim.interface import InvalidScheduleError
 from acnportal.algorithms import BaseAlgorithm
 
-from mc.core import Acc
+from mc.core import Acc, guard
 from mc import simspace as S
 
 ID = "C04"
@@ -169,6 +169,7 @@ def execute(item):
         try:
             sim.run()
         except Exception as exc:
+            guard(exc)
             err = exc
     stations = sim.network.station_ids
     # ---- overlay model -----------------------------------------------------------
